@@ -14,6 +14,16 @@
 // evaluated after every round; in addition the executable the executor is handed must be the data source's
 // executable on the chain (at request time = the hash in the raw_request event, or at handling time).
 //
+// A round in mode "restart" models the start-up of the daemon (yoda/run.go runImpl): the round's requests are made on
+// the chain, a generated subset of the OTHER selected validators (and sometimes the daemon's validator itself, "in an
+// earlier life") deliver reports first, so that requests are below / at / above min_count, resolved, or fully reported
+// except for the daemon's validator; some blocks pass (in the last round possibly enough to expire requests); only then
+// a fresh Context asks the node "/band.oracle.v1.Query/PendingRequests" through the RPC stub and runs `go
+// handleRequest` for every returned id, exactly as runImpl does (the hook file has no accessor for runImpl, so those
+// ten lines are repeated in the harness; handleTransaction never sees these requests). Owed = every request of the
+// case that is not expired, selects the validator and has no report of it on the chain: exactly one report each, none
+// for any other request.
+//
 // "Passes the chain's report validation" is decided by the chain itself: at the end of every round each report the
 // daemon queued is signed by the validator's account and DELIVERED in the next block of the chain the request came
 // from (real ante handler + real MsgReportData handler). The request is open (made one or two blocks earlier, far
@@ -95,6 +105,12 @@ type c19Req struct {
 	Min    int      `json:"min"`
 	Client string   `json:"client,omitempty"`
 	Raws   []c19Raw `json:"raws"`
+	// restart rounds only: how many of the OTHER selected validators report before the daemon starts
+	// (-1 all, -2 min_count, -3 min_count-1, n>=0 that many; capped), which ones, and whether the daemon's own
+	// validator has already reported in an earlier life
+	Others    int  `json:"others,omitempty"`
+	OthersRot int  `json:"others_rot,omitempty"`
+	MeRep     bool `json:"me_rep,omitempty"`
 }
 
 type c19Tx struct {
@@ -120,10 +136,12 @@ type c19Round struct {
 	Edits     []c19Edit `json:"edits,omitempty"`      // block before this round's requests
 	LateEdits []c19Edit `json:"late_edits,omitempty"` // block after the requests, before the daemon handles them
 	Txs       []c19Tx   `json:"txs"`
-	Mode      string    `json:"mode"`
+	Mode      string    `json:"mode"` // direct | direct-go | tx | tx-go | restart
 	Rot       int       `json:"rot,omitempty"`
 	Rev       bool      `json:"rev,omitempty"`
 	Ghost     bool      `json:"ghost,omitempty"`
+	Idle      int       `json:"idle,omitempty"`       // restart: empty blocks between the reports of the others and the start-up
+	Expire    int       `json:"expire,omitempty"`     // restart, last round only: 1 = blocks pass until the requests of earlier rounds have expired, 2 = this round's too
 	StoreFail int       `json:"store_fail,omitempty"` // the first k /store queries of this round fail
 	DataFail  int       `json:"data_fail,omitempty"`  // the first k Query/Data queries (of fetchable files) of this round fail
 }
@@ -145,6 +163,9 @@ type c19Case struct {
 	NKeys     int     `json:"nkeys"`                // 1 or 3 reporter keys
 	Procs     int     `json:"procs,omitempty"`      // GOMAXPROCS for this case (0 = leave)
 	ExclShort int     `json:"excl_short,omitempty"` // number of short executables remapped because of the known finding
+	Idle      int     `json:"idle,omitempty"`       // round 1, mode restart: see c19Round
+	Expire    int     `json:"expire,omitempty"`     // round 1, mode restart: see c19Round
+	ExpBlocks int     `json:"exp_blocks,omitempty"` // oracle param ExpirationBlockCount (0 = default 100)
 	MaxData   int     `json:"max_data,omitempty"`   // oracle param MaxReportDataSize of the chain (0 = default 512)
 	ExecCut   int     `json:"exec_cut,omitempty"`   // the executor cuts its output to this many bytes (0 = it does not cut)
 	// later rounds handled by the same daemon Context (round 1 = the fields above)
@@ -190,7 +211,7 @@ func genExecLen(rt *rapid.T, minLen int, excl *int) int {
 // genTxs draws the request transactions of one round. prefer (may be empty) lists data source indices the round
 // should ask on purpose: the first raw request of the first request takes one of them and that request tends to ask
 // every active validator, so that the daemon's validator is selected whenever it is active.
-func genTxs(rt *rapid.T, nds, nActive, maxData int, prefer []int, used map[int]bool) []c19Tx {
+func genTxs(rt *rapid.T, nds, nActive, maxData int, prefer []int, used map[int]bool, restart bool) []c19Tx {
 	var out []c19Tx
 	ntx := rapid.IntRange(1, 3).Draw(rt, "ntx")
 	for t := 0; t < ntx; t++ {
@@ -206,6 +227,19 @@ func genTxs(rt *rapid.T, nds, nActive, maxData int, prefer []int, used map[int]b
 				}
 			}
 			q := c19Req{Ask: ask, Min: gen.Range(rt, "min", 1, ask), Client: rapid.StringMatching(`[a-z]{0,4}`).Draw(rt, "client")}
+			if restart {
+				// start-up round: many validators asked, min_count below ask_count, the others report first
+				if gen.Chance(rt, "rsaskall", 2, 3) {
+					q.Ask = nActive
+				}
+				q.Min = gen.Range(rt, "rsmin", 1, q.Ask)
+				if q.Ask > 1 && gen.Chance(rt, "rsminlow", 3, 4) {
+					q.Min = gen.Range(rt, "rsminl", 1, q.Ask-1)
+				}
+				q.Others = gen.OneOf(rt, "others", -2, -2, -2, -2, -1, -1, -3, 0, 1)
+				q.OthersRot = gen.Uniform(rt, "othersrot", 4)
+				q.MeRep = gen.Chance(rt, "merep", 1, 8)
+			}
 			nraw := gen.OneOf(rt, "nraw", 1, 2, 2, 3, 3, 4, 5, 6)
 			usedEID := map[uint64]bool{}
 			prev := 0
@@ -321,7 +355,7 @@ func genC19(rt *rapid.T) c19Case {
 		c.DSs = append(c.DSs, c19DS{Len: l, Seed: gen.Uniform(rt, "seed", 3),
 			Cached: gen.Chance(rt, "cached", 1, 3), PermFail: gen.Chance(rt, "permfail", 1, 6)})
 	}
-	c.Mode = gen.OneOf(rt, "mode", "direct", "direct", "direct-go", "tx", "tx", "tx-go")
+	c.Mode = gen.OneOf(rt, "mode", "direct", "direct", "direct-go", "tx", "tx", "tx-go", "restart", "restart")
 	used := map[int]bool{}
 	// how many rounds the same daemon lives through
 	nRounds := 1 + gen.Pick(rt, "nrounds", 45, 42, 13)
@@ -336,7 +370,13 @@ func genC19(rt *rapid.T) c19Case {
 	if gen.Chance(rt, "nocut", 1, 10) {
 		c.ExecCut = 0
 	}
-	c.Txs = genTxs(rt, nds, nActive, c.MaxData, prefer1, used)
+	c.Txs = genTxs(rt, nds, nActive, c.MaxData, prefer1, used, c.Mode == "restart")
+	if c.Mode == "restart" {
+		c.Idle = gen.OneOf(rt, "idle", 0, 0, 1, 3)
+		if nRounds == 1 {
+			c.Expire = gen.OneOf(rt, "expire", 0, 0, 0, 0, 0, 0, 0, 0, 0, 0, 2)
+		}
+	}
 	c.Rot = gen.Uniform(rt, "rot", 4)
 	c.Rev = gen.Chance(rt, "rev", 1, 3)
 	c.Ghost = gen.Chance(rt, "ghost", 1, 10)
@@ -359,8 +399,14 @@ func genC19(rt *rapid.T) c19Case {
 				edited[mod(e.DS, nds)] = true
 			}
 		}
-		rd.Txs = genTxs(rt, nds, nActive, c.MaxData, sortedKeys(edited), used)
-		rd.Mode = gen.OneOf(rt, "rmode", "direct", "direct", "direct-go", "tx", "tx", "tx-go")
+		rd.Mode = gen.OneOf(rt, "rmode", "direct", "direct", "direct-go", "tx", "tx", "tx-go", "restart", "restart", "restart")
+		rd.Txs = genTxs(rt, nds, nActive, c.MaxData, sortedKeys(edited), used, rd.Mode == "restart")
+		if rd.Mode == "restart" {
+			rd.Idle = gen.OneOf(rt, "ridle", 0, 0, 1, 3)
+			if r == nRounds-1 {
+				rd.Expire = gen.OneOf(rt, "rexpire", 0, 0, 0, 0, 0, 0, 0, 1, 1, 2)
+			}
+		}
 		rd.Rot = gen.Uniform(rt, "rrot", 4)
 		rd.Rev = gen.Chance(rt, "rrev", 1, 3)
 		rd.Ghost = gen.Chance(rt, "rghost", 1, 10)
@@ -371,6 +417,9 @@ func genC19(rt *rapid.T) c19Case {
 			rd.LateEdits = append(rd.LateEdits, genEdit(rt, nds, c.NVals, minLen, sortedKeys(used), &c.ExclShort))
 		}
 		c.Rounds = append(c.Rounds, rd)
+	}
+	if c.Expire > 0 || (len(c.Rounds) > 0 && c.Rounds[len(c.Rounds)-1].Expire > 0) {
+		c.ExpBlocks = 30 // more than all blocks before the last round's start-up, few enough to be walked through
 	}
 	return c
 }
@@ -716,6 +765,8 @@ type reqModel struct {
 	q          c19Req
 	selected   bool
 	round      int
+	height     int64    // height of the block that made the request
+	vals       []string // requested validators, in the chain's order
 	reqHash    []string // per raw request: hash of the data source's executable when the request was made
 	handleHash []string // per raw request: hash of the data source's executable when the daemon handles it
 }
@@ -761,6 +812,13 @@ type c19World struct {
 	askedAgainRaws, askedAgainRan, askedUneditedAgain                                   int
 	modes                                                                               map[string]bool
 	delivered, deliveredAtMax, deliveredBelowMax, overRefused, overAccepted             int
+
+	nRounds  int
+	cacheDir string
+	kb       keyring.Keyring
+	// restart rounds
+	restartRounds, rsOwed, rsBelowMin, rsAtMin, rsAboveMin, rsResolved, rsAllOthers, rsMine, rsExpired int
+	rsOlderOwed, rsReturned, rsOtherReports, rsIdleBlocks                                              int
 }
 
 // applyEdits sends one MsgEditDataSource transaction per edit in one block and moves the model along.
@@ -872,6 +930,188 @@ func (w *c19World) applyEdits(edits []c19Edit, late bool, ri int) bool {
 	return true
 }
 
+// othersReport (restart rounds): before the daemon starts, the generated subset of the other selected validators
+// reports on the round's requests, and for some requests the daemon's own validator has a report from an earlier life.
+// The reports are ordinary MsgReportData transactions signed by the validators' accounts, all in one block.
+func (w *c19World) othersReport(models []*reqModel) bool {
+	v, ch := w.v, w.ch
+	idxOf := map[string]int{}
+	for i, a := range ch.Vals {
+		idxOf[a.Val.String()] = i
+	}
+	var txs [][]byte
+	ctx := ch.Ctx()
+	for _, m := range models {
+		var others []int
+		for _, a := range m.vals {
+			if i, ok := idxOf[a]; ok && i != w.me {
+				others = append(others, i)
+			}
+		}
+		req, err := ch.App.OracleKeeper.GetRequest(ctx, oracletypes.RequestID(m.id))
+		if err != nil {
+			v.Failf("harness", "request %d not on the chain: %v", m.id, err)
+			return false
+		}
+		n := m.q.Others
+		switch n {
+		case -1:
+			n = len(others)
+		case -2:
+			n = int(req.MinCount)
+		case -3:
+			n = int(req.MinCount) - 1
+		}
+		if n < 0 {
+			n = 0
+		}
+		if n > len(others) {
+			n = len(others)
+		}
+		raws := func(tag string) []oracletypes.RawReport {
+			var out []oracletypes.RawReport
+			for _, r := range m.q.Raws {
+				out = append(out, oracletypes.NewRawReport(oracletypes.ExternalID(r.EID), 0, []byte(tag)))
+			}
+			return out
+		}
+		for i := 0; i < n; i++ {
+			j := others[(mod(m.q.OthersRot, len(others))+i)%len(others)]
+			txs = append(txs, ch.SignTx(ch.Vals[j], oracletypes.NewMsgReportData(oracletypes.RequestID(m.id), raws("o"), ch.Vals[j].Val)))
+			w.rsOtherReports++
+		}
+		if m.q.MeRep && m.selected {
+			txs = append(txs, ch.SignTx(ch.Vals[w.me], oracletypes.NewMsgReportData(oracletypes.RequestID(m.id), raws("m"), w.myVal)))
+		}
+	}
+	if len(txs) == 0 {
+		return true
+	}
+	res, err := ch.Block(txs, time.Second)
+	if err != nil || len(res.Resp.TxResults) != len(txs) {
+		v.Failf("harness", "block with the other validators' reports failed: %v", err)
+		return false
+	}
+	for _, tr := range res.Resp.TxResults {
+		if tr.Code != 0 {
+			v.Failf("harness", "report of another validator refused: %s/%d %s", tr.Codespace, tr.Code, firstLine(tr.Log))
+			return false
+		}
+	}
+	return true
+}
+
+// beforeStartup (restart rounds): lets the generated number of blocks pass (in the last round possibly until requests
+// have expired), reads from the chain's state which requests of the whole case are owed a report by the validator,
+// prepares the stubs for requests of earlier rounds that are handled again, and replaces the daemon by a fresh one.
+func (w *c19World) beforeStartup(ri int, rd c19Round, models []*reqModel) ([]*reqModel, map[uint64]bool, map[uint64]string, bool) {
+	v, ch := w.v, w.ch
+	k := ch.App.OracleKeeper
+	block := func() bool {
+		if _, err := ch.Block(nil, time.Second); err != nil {
+			v.Failf("harness", "empty block failed: %v", err)
+			return false
+		}
+		w.rsIdleBlocks++
+		return true
+	}
+	for i := 0; i < rd.Idle; i++ {
+		if !block() {
+			return nil, nil, nil, false
+		}
+	}
+	if rd.Expire > 0 {
+		// a request made at height h is expired by the end blocker of block h+ExpirationBlockCount
+		var newest int64 = -1
+		for _, m := range w.models {
+			if (m.round < ri || rd.Expire == 2) && m.height > newest {
+				newest = m.height
+			}
+		}
+		if newest >= 0 {
+			target := newest + int64(k.GetParams(ch.Ctx()).ExpirationBlockCount)
+			for guard := 0; ch.Height < target && guard < 250; guard++ {
+				if !block() {
+					return nil, nil, nil, false
+				}
+			}
+		}
+	}
+	ctx := ch.Ctx()
+	lastExpired := uint64(k.GetRequestLastExpired(ctx))
+	owed, whyNot := map[uint64]bool{}, map[uint64]string{}
+	var refreshed []*reqModel
+	for _, m := range w.models {
+		rid := oracletypes.RequestID(m.id)
+		switch {
+		case !m.selected:
+			whyNot[m.id] = "does not select the validator"
+		case m.id <= lastExpired:
+			whyNot[m.id] = "has expired"
+			w.rsExpired++
+		case k.HasReport(ctx, rid, w.myVal):
+			whyNot[m.id] = "already has a report of the validator on the chain"
+			w.rsMine++
+		default:
+			owed[m.id] = true
+			w.rsOwed++
+			if m.round < ri {
+				w.rsOlderOwed++
+				refreshed = append(refreshed, m)
+			}
+			req, err := k.GetRequest(ctx, rid)
+			if err != nil {
+				v.Failf("harness", "request %d not on the chain: %v", m.id, err)
+				return nil, nil, nil, false
+			}
+			cnt := k.GetReportCount(ctx, rid)
+			switch {
+			case cnt < req.MinCount:
+				w.rsBelowMin++
+			case cnt == req.MinCount:
+				w.rsAtMin++
+			default:
+				w.rsAboveMin++
+			}
+			if k.HasResult(ctx, rid) {
+				w.rsResolved++
+			}
+			if int(cnt) == len(req.RequestedValidators)-1 {
+				w.rsAllOthers++
+			}
+		}
+	}
+	// requests of earlier rounds that the new daemon will handle again: the executor stub forgets the earlier life,
+	// and "the data source's executable at handling time" is the one the chain holds now
+	w.ex.mu.Lock()
+	for _, m := range refreshed {
+		for j, r := range m.q.Raws {
+			key := execKey{m.id, r.EID}
+			h := w.cur[uint64(1+mod(r.DS, w.nds))].hash
+			if j < len(m.handleHash) {
+				m.handleHash[j] = h
+			}
+			w.ex.accept[key] = execAccept{reqHash: m.reqHash[j], handleHash: h}
+			delete(w.ex.calls, key)
+			delete(w.ex.gotHash, key)
+		}
+	}
+	w.ex.mu.Unlock()
+	// a new process: fresh Context (nothing remembered), same file cache directory on disk
+	if ri > 0 {
+		yc, err := yoda.VerifNewContext(ch.App, w.rpc, w.myVal, w.ex, w.kb, ch.Cfg.ChainID, w.cacheDir, uint64(w.c.MaxTry), 50*time.Microsecond, 256)
+		if err != nil {
+			v.Failf("harness", "VerifNewContext (restart): %v", err)
+			return nil, nil, nil, false
+		}
+		w.yc = yc
+	}
+	w.reported = map[uint64]int{}
+	w.lookedUp = map[uint64]string{}
+	w.restartRounds++
+	return w.models, owed, whyNot, true
+}
+
 func runC19(c c19Case) *pbt.Verdict {
 	v := &pbt.Verdict{}
 	if os.Getenv("VERIF_C19_NOJOURNAL") == "" {
@@ -907,11 +1147,22 @@ func runC19(c c19Case) *pbt.Verdict {
 		v.Count("excluded_known", int64(c.ExclShort))
 	}
 	rounds := append([]c19Round{{LateEdits: c.LateEdits, Txs: c.Txs, Mode: c.Mode, Rot: c.Rot, Rev: c.Rev, Ghost: c.Ghost,
-		StoreFail: c.StoreFail, DataFail: c.DataFail}}, c.Rounds...)
+		Idle: c.Idle, Expire: c.Expire, StoreFail: c.StoreFail, DataFail: c.DataFail}}, c.Rounds...)
+	for i := range rounds {
+		if rounds[i].Idle < 0 || rounds[i].Idle > 5 {
+			rounds[i].Idle = 0
+		}
+		if i != len(rounds)-1 || rounds[i].Expire < 0 || rounds[i].Expire > 2 {
+			rounds[i].Expire = 0 // an expiry deactivates the validators that did not report: last round only
+		}
+	}
+	if c.ExpBlocks != 0 && (c.ExpBlocks < 30 || c.ExpBlocks > 200) {
+		c.ExpBlocks = 30
+	}
 
 	w := &c19World{c: c, v: v, nds: nds, cur: map[uint64]dsVer{}, seenHash: map[string]bool{}, cachedHash: map[string]bool{},
 		permHash: map[string]bool{}, byID: map[uint64]*reqModel{}, reported: map[uint64]int{}, lookedUp: map[uint64]string{},
-		modes: map[string]bool{}}
+		modes: map[string]bool{}, nRounds: len(rounds)}
 
 	// -- chain ------------------------------------------------------------------------------------------
 	vals := make([]sim.ValSpec, c.NVals)
@@ -936,6 +1187,9 @@ func runC19(c c19Case) *pbt.Verdict {
 	op.MaxCalldataSize = 1024
 	if c.MaxData > 0 {
 		op.MaxReportDataSize = uint64(c.MaxData)
+	}
+	if c.ExpBlocks > 0 {
+		op.ExpirationBlockCount = uint64(c.ExpBlocks)
 	}
 	ch, err := sim.New(sim.Config{NumAccounts: 1, Validators: vals, Oracle: &op, DataSources: dss, Scripts: [][]byte{c19Script()}}, 0)
 	if err != nil {
@@ -972,6 +1226,7 @@ func runC19(c c19Case) *pbt.Verdict {
 		return v
 	}
 	defer os.RemoveAll(cacheDir)
+	w.cacheDir = cacheDir
 	w.pre = filecache.New(cacheDir)
 	for _, d := range w.cur {
 		if w.cachedHash[d.hash] {
@@ -986,6 +1241,7 @@ func runC19(c c19Case) *pbt.Verdict {
 		v.Failf("harness", "keyring: %v", err)
 		return v
 	}
+	w.kb = kb
 	w.yc, err = yoda.VerifNewContext(ch.App, w.rpc, w.myVal, w.ex, kb, ch.Cfg.ChainID, cacheDir, uint64(c.MaxTry), 50*time.Microsecond, 256)
 	if err != nil {
 		v.Failf("harness", "VerifNewContext: %v", err)
@@ -1096,8 +1352,9 @@ func (w *c19World) round(ri int, rd c19Round) (*pbt.Verdict, bool) {
 				v.Failf("harness", "bad request id in event: %q", sim.Attr(reqEvs[qi], oracletypes.AttributeKeyID))
 				return nil, false
 			}
-			m := &reqModel{id: id, q: q, round: ri}
+			m := &reqModel{id: id, q: q, round: ri, height: res.Height}
 			for _, val := range sim.Attrs(reqEvs[qi], oracletypes.AttributeKeyValidator) {
+				m.vals = append(m.vals, val)
 				if val == myVal.String() {
 					m.selected = true
 				}
@@ -1127,6 +1384,11 @@ func (w *c19World) round(ri int, rd c19Round) (*pbt.Verdict, bool) {
 		}
 	}
 
+	restart := rd.Mode == "restart"
+	if restart && !w.othersReport(models) {
+		return nil, false
+	}
+
 	// -- chain-side edits between the requests and their handling ------------------------------------------
 	if !w.applyEdits(rd.LateEdits, true, ri) {
 		return nil, false
@@ -1141,6 +1403,22 @@ func (w *c19World) round(ri int, rd c19Round) (*pbt.Verdict, bool) {
 		}
 	}
 	w.ex.mu.Unlock()
+
+	// evalModels are the requests this round may produce reports for; owed[id] = a report is due in this round.
+	// live rounds: the round's own requests, owed iff they select the validator.
+	// restart rounds: every request of the case, owed iff not expired, selecting the validator, without its report.
+	evalModels := models
+	owed := map[uint64]bool{}
+	whyNot := map[uint64]string{}
+	for _, m := range models {
+		owed[m.id] = m.selected
+	}
+	if restart {
+		var ok bool
+		if evalModels, owed, whyNot, ok = w.beforeStartup(ri, rd, models); !ok {
+			return nil, false
+		}
+	}
 
 	// -- the daemon handles this round's requests -----------------------------------------------------------
 	w.rpc.mu.Lock()
@@ -1186,10 +1464,31 @@ func (w *c19World) round(ri int, rd c19Round) (*pbt.Verdict, bool) {
 	}
 	// The entry points run in a goroutine of their own so that a daemon call that never returns makes the case
 	// inconclusive instead of hanging the harness.
-	var launched int32
+	var launched, startupFailed int32
+	var returned int64
+	yc, yl = w.yc, w.yl // (a restart round has just built a fresh Context)
 	go func() {
 		defer atomic.StoreInt32(&launched, 1)
 		switch rd.Mode {
+		case "restart":
+			// yoda/run.go runImpl at start-up: ask the node for the pending requests of the validator and handle each
+			// of them in a goroutine. (runImpl has no verif accessor; its lines are repeated here. It also marks the
+			// ids in c.pendingRequests, which only handleTransaction reads; no transaction is shown to this daemon.)
+			bz := ch.App.AppCodec().MustMarshal(&oracletypes.QueryPendingRequestsRequest{ValidatorAddress: myVal.String()})
+			resBz, qerr := w.rpc.ABCIQuery(context.Background(), "/band.oracle.v1.Query/PendingRequests", bz)
+			if qerr != nil || resBz == nil || resBz.Response.Code != 0 {
+				atomic.StoreInt32(&startupFailed, 1)
+				return
+			}
+			pendingRequests := oracletypes.QueryPendingRequestsResponse{}
+			if uerr := ch.App.AppCodec().Unmarshal(resBz.Response.Value, &pendingRequests); uerr != nil {
+				atomic.StoreInt32(&startupFailed, 1)
+				return
+			}
+			atomic.StoreInt64(&returned, int64(len(pendingRequests.RequestIDs)))
+			for _, id := range pendingRequests.RequestIDs {
+				go yoda.VerifHandleRequest(yc, yl, oracletypes.RequestID(id))
+			}
 		case "direct":
 			for _, id := range ids {
 				yoda.VerifHandleRequest(yc, yl, oracletypes.RequestID(id))
@@ -1239,6 +1538,11 @@ func (w *c19World) round(ri int, rd c19Round) (*pbt.Verdict, bool) {
 		iv.Class("inconclusive")
 		return iv, false
 	}
+	if atomic.LoadInt32(&startupFailed) != 0 {
+		v.Failf("harness", "round %d: the PendingRequests query of the start-up failed", ri+1)
+		return nil, false
+	}
+	w.rsReturned += int(atomic.LoadInt64(&returned))
 	msgs := yoda.VerifDrain(yc)
 	w.roundsRun++
 	w.reports += len(msgs)
@@ -1250,7 +1554,7 @@ func (w *c19World) round(ri int, rd c19Round) (*pbt.Verdict, bool) {
 	w.ex.mu.Lock()
 	calls := map[execKey]int{}
 	gotHash := map[execKey]string{}
-	for _, m := range models {
+	for _, m := range evalModels {
 		for _, r := range m.q.Raws {
 			k := execKey{m.id, r.EID}
 			calls[k], gotHash[k] = w.ex.calls[k], w.ex.gotHash[k]
@@ -1297,15 +1601,17 @@ func (w *c19World) round(ri int, rd c19Round) (*pbt.Verdict, bool) {
 			v.Failf("C19/unknown-request", "report queued for request %d which does not exist", id)
 		case !m.selected:
 			v.Failf("C19/unselected-report", "report queued for request %d which does not select validator %s", id, myVal)
+		case restart && !owed[id]:
+			v.Failf("C19/unowed-report", "start-up in round %d: report queued for request %d (round %d) which %s", ri+1, id, m.round+1, whyNot[id])
 		case w.reported[id] > 1:
 			v.Failf("C19/duplicate", "%d reports queued for request %d (round %d, request of round %d)", w.reported[id], id, ri+1, m.round+1)
-		case m.round != ri:
+		case m.round != ri && !restart:
 			v.Failf("C19/duplicate", "report for request %d of round %d queued while handling round %d", id, m.round+1, ri+1)
 		}
 	}
 	ctx := ch.Ctx()
-	for _, m := range models {
-		if !m.selected {
+	for _, m := range evalModels {
+		if !owed[m.id] {
 			continue
 		}
 		w.selectedN++
@@ -1313,6 +1619,12 @@ func (w *c19World) round(ri int, rd c19Round) (*pbt.Verdict, bool) {
 		if len(reps) == 0 {
 			if storeExhausted {
 				w.dropsExhausted++
+				continue
+			}
+			if restart {
+				v.Failf("C19/dropped", "start-up in round %d: request %d (made in round %d, min_count %d, %d reports of other validators, resolved %v) is not expired, selects %s and has no report of it, but no report was queued (%d ids returned by PendingRequests)",
+					ri+1, m.id, m.round+1, ch.App.OracleKeeper.MustGetRequest(ctx, oracletypes.RequestID(m.id)).MinCount, ch.App.OracleKeeper.GetReportCount(ctx, oracletypes.RequestID(m.id)),
+					ch.App.OracleKeeper.HasResult(ctx, oracletypes.RequestID(m.id)), myVal, atomic.LoadInt64(&returned))
 				continue
 			}
 			v.Failf("C19/dropped", "request %d (round %d) selects %s but no report was queued (%d raw requests, mode %s)", m.id, ri+1, myVal, len(m.q.Raws), rd.Mode)
@@ -1415,8 +1727,8 @@ func (w *c19World) round(ri int, rd c19Round) (*pbt.Verdict, bool) {
 		}
 	}
 	// what the daemon has now looked up (it reads the data source of every raw request of a request it reports)
-	for _, m := range models {
-		if !m.selected || len(got[m.id]) == 0 {
+	for _, m := range evalModels {
+		if !owed[m.id] || len(got[m.id]) == 0 {
 			continue
 		}
 		for j, r := range m.q.Raws {
@@ -1444,8 +1756,8 @@ func (w *c19World) round(ri int, rd c19Round) (*pbt.Verdict, bool) {
 	maxData := int(ch.App.OracleKeeper.GetParams(ctx).MaxReportDataSize)
 	var dtxs [][]byte
 	var dreps []*oracletypes.MsgReportData
-	for _, m := range models {
-		if reps := got[m.id]; m.selected && len(reps) == 1 {
+	for _, m := range evalModels {
+		if reps := got[m.id]; owed[m.id] && len(reps) == 1 {
 			dtxs = append(dtxs, ch.SignTx(ch.Vals[w.me], reps[0]))
 			dreps = append(dreps, reps[0])
 		}
@@ -1493,8 +1805,8 @@ func (w *c19World) round(ri int, rd c19Round) (*pbt.Verdict, bool) {
 	}
 
 	// -- per-round class material -------------------------------------------------------------------------
-	for _, m := range models {
-		if !m.selected {
+	for _, m := range evalModels {
+		if !owed[m.id] {
 			continue
 		}
 		for j, r := range m.q.Raws {
@@ -1545,6 +1857,43 @@ func (w *c19World) stats(nRounds int) {
 	v.Count("exec_got_request_time_executable", int64(atReq))
 	v.Count("exec_got_handling_time_executable", int64(atHandle))
 	v.Count("load_failure_ambiguous_hash", int64(w.loadAmbiguous))
+	v.Count("restart_rounds", int64(w.restartRounds))
+	v.Count("restart_pending_ids_returned", int64(w.rsReturned))
+	v.Count("restart_owed_requests", int64(w.rsOwed))
+	v.Count("restart_owed_from_earlier_rounds", int64(w.rsOlderOwed))
+	v.Count("restart_owed_below_min_count", int64(w.rsBelowMin))
+	v.Count("restart_owed_at_min_count", int64(w.rsAtMin))
+	v.Count("restart_owed_above_min_count", int64(w.rsAboveMin))
+	v.Count("restart_owed_resolved", int64(w.rsResolved))
+	v.Count("restart_owed_all_others_reported", int64(w.rsAllOthers))
+	v.Count("restart_already_reported_by_me", int64(w.rsMine))
+	v.Count("restart_expired", int64(w.rsExpired))
+	v.Count("restart_reports_of_others", int64(w.rsOtherReports))
+	v.Count("restart_idle_blocks", int64(w.rsIdleBlocks))
+	if w.restartRounds > 0 {
+		v.Class("restart-round")
+	}
+	if w.rsBelowMin > 0 {
+		v.Class("restart:request-below-min-count")
+	}
+	if w.rsAtMin+w.rsAboveMin > 0 {
+		v.Class("restart:request-at-min-count-without-my-report")
+	}
+	if w.rsResolved > 0 {
+		v.Class("restart:request-resolved-without-my-report")
+	}
+	if w.rsAllOthers > 0 {
+		v.Class("restart:all-others-reported")
+	}
+	if w.rsMine > 0 {
+		v.Class("restart:already-reported-by-me")
+	}
+	if w.rsExpired > 0 {
+		v.Class("restart:expired")
+	}
+	if w.rsOlderOwed > 0 {
+		v.Class("restart:owed-from-earlier-round")
+	}
 	v.Count("reports_delivered_accepted", int64(w.delivered))
 	v.Count("reports_delivered_with_data_at_max_size", int64(w.deliveredAtMax))
 	v.Count("reports_delivered_with_data_one_below_max", int64(w.deliveredBelowMax))
@@ -1563,7 +1912,7 @@ func (w *c19World) stats(nRounds int) {
 		v.Class("report-over-limit-refused")
 	}
 	v.Class(fmt.Sprintf("max-report-data:%d", w.ch.App.OracleKeeper.GetParams(w.ch.Ctx()).MaxReportDataSize))
-	for _, m := range []string{"direct", "direct-go", "tx", "tx-go"} {
+	for _, m := range []string{"direct", "direct-go", "tx", "tx-go", "restart"} {
 		if w.modes[m] {
 			v.Class("mode:" + m)
 		}
